@@ -456,6 +456,11 @@ pub fn run_generated<P: Prop>(
     results.sort_by_key(|r| r.0);
     let mut all = Stats::default();
     let mut fail = None;
+    let failing = results.iter().filter(|r| r.2.is_some()).count();
+    if failing > 0 {
+        // how many of the independent searches found a failure: the robustness of a detection
+        eprintln!("failing workers: {} of {}", failing, WORKERS);
+    }
     for (w, st, f) in results {
         all.merge(st);
         if fail.is_none() {
